@@ -12,8 +12,19 @@
      genf     [] or [check; root; nclasses; counts; runs; K]: counts = per class the specification's counts
               0..check (at least), runs = the solver's lists of solutions handed to get_genf (as is,
               reversed), a solution = per class [] (no function / no Taylor expansion) or 1 :: coefficients 0..K
+     crit     (optional 8th field; absent or [] = nothing to decide) [root; us; ks; M; tables; check; cl]: the univariate
+              descriptor of the specification of a get_genf case (harness uspec_of) --
+              us = one [class; kind; ...] per rule IN THE ORDER OF `rules` (kind 0 [kids], 1 [[kid; minimum size] ...],
+              2 p cs idx, 7 m, 8), ks = the keys the LIBRARY declares [[parent; [[child; shift] ...]] ...] (rule.shifts()),
+              tables = [[class; [true count at sizes 0..M]] ...] (brute force), check and cl = the classes whose
+              solved functions get_genf compares on the terms 0..check
    output one [status; nf lhs; nf rhs; evaluation] per rule, then per run [5; 1; root coefficients of the
-          selected solution] or [5; 0; []] (IncorrectGeneratingFunctionError)
+          selected solution] or [5; 0; []] (IncorrectGeneratingFunctionError), then, when crit is given,
+          [6; crit_okb; parts; same; genuine; recur; low; sel]: the verdict of Count/SeriesCriterion.v crit_okb (sound for the
+          decidable hypotheses of closed_form_criterion: SeriesCriterionProofs.v crit_okb_sound), its five parts, per
+          rule whether the equation of the univariate rule (rule_equation nopars (to_rule c r)) has the same normal
+          forms as the equation of the rule descriptor compared with the library's, per rule genuine_ub / recur_okb
+          on the true tables (sizes 0..M), low_okb, and sel_okb us cl check
      status      0 equation, 1 NotImplementedError (the equation is then F = NOTIMPLEMENTED(x)), 2 malformed
      nf e        canonical form of an expression: a sorted Laurent polynomial over atoms
                  (variables, function applications with monomial arguments) — sympy
@@ -22,7 +33,8 @@
                  (lhs', rhs') = undiv (lhs, rhs) evaluated on the given tables, or [0] when
                  some sub-expression has no meaning                                           *)
 From Coq Require Import ZArith List Bool.
-From CSS Require Import Base.Sx Count.Series Count.Equations Count.GenfSelect.
+From CSS Require Import Base.Sx Forest.Spec Count.Series Count.Equations Count.GenfSelect.
+From CSS Require Import Count.SeriesUnique Count.SeriesCriterion.
 Import ListNotations.
 Open Scope Z_scope.
 
@@ -196,7 +208,56 @@ Definition run_genf (fixed : bool) (g : sx) : list sx :=
              end) (sx_list (sx_nth g 4))
   end.
 
-(* input [N; V; classes; opaque; rules; mode; genf]  ->  one result per rule, then one per get_genf run *)
+(* ------------------------------------------------------------ the closed-form criterion, decided *)
+Definition dec_kidsZ (s : sx) : list (nat * Z) :=
+  map (fun p => (sx_nat (sx_nth p 0), sx_Z (sx_nth p 1))) (sx_list s).
+
+Definition dec_urule (s : sx) : nat * urule :=
+  (sx_nat (sx_nth s 0),
+   match sx_Z (sx_nth s 1) with
+   | 0 => UUnion (sx_nats (sx_nth s 2))
+   | 1 => UProduct (dec_kidsZ (sx_nth s 2))
+   | 2 => UComplement (sx_nat (sx_nth s 2)) (sx_nats (sx_nth s 3)) (sx_nat (sx_nth s 4))
+   | 7 => UAtom (sx_Z (sx_nth s 2))
+   | _ => UEmpty
+   end).
+
+Definition dec_fkey (s : sx) : fkey := mkkey (sx_nat (sx_nth s 0)) (dec_kidsZ (sx_nth s 1)).
+
+Definition eq_nf (q : result) : sx :=
+  match q with
+  | Ok lhs rhs => L [I 0; enc_npoly (nf lhs); enc_npoly (nf rhs)]
+  | NotImpl => L [I 1]
+  | IndexErr => L [I 2]
+  end.
+
+Definition run_crit (fixed guard : bool) (classes rules : list sx) (g : sx) : list sx :=
+  match sx_list g with
+  | [] => []
+  | _ =>
+      let root := sx_nat (sx_nth g 0) in
+      let us := map dec_urule (sx_list (sx_nth g 1)) in
+      let ks := map dec_fkey (sx_list (sx_nth g 2)) in
+      let M := sx_Z (sx_nth g 3) in
+      let tabs := sx_list (sx_nth g 4) in
+      let W := fun c : nat => series_of (sx_Zs (sx_nth (find_class (Z.of_nat c) tabs) 1)) in
+      let pars := fun l => sx_Zs (sx_nth (find_class l classes) 1) in
+      let req := fun r => if fixed then (if guard then rule_equation_guarded pars r else rule_equation pars r)
+                          else rule_equation_old pars r in
+      let same := map (fun ur_d =>
+                         sx_eqb (eq_nf (rule_equation nopars (to_rule (fst (fst ur_d)) (snd (fst ur_d)))))
+                                (eq_nf (req (dec_rule (snd ur_d)))))
+                      (combine us rules) in
+      [L [I 6; of_bool (crit_okb us ks root);
+          L (map of_bool (crit_parts us ks root));
+          L (of_bool (Nat.eqb (length us) (length rules)) :: map of_bool same);
+          L (map (fun cr => of_bool (genuine_ub W M (fst cr) (snd cr))) us);
+          L (map (fun cr => of_bool (recur_okb W M (fst cr) (snd cr))) us);
+          of_bool (low_okb W M us);
+          of_bool (sel_okb us (sx_nats (sx_nth g 6)) (sx_Z (sx_nth g 5)))]]
+  end.
+
+(* input [N; V; classes; opaque; rules; mode; genf; crit]  ->  one result per rule, one per get_genf run, the criterion *)
 Definition run_c20 (inp : sx) : sx :=
   let N := sx_Z (sx_nth inp 0) in
   let V := sx_Zs (sx_nth inp 1) in
@@ -206,4 +267,5 @@ Definition run_c20 (inp : sx) : sx :=
   let gfixed := sx_bool (sx_nth (sx_nth inp 5) 1) in
   let guard := sx_bool (sx_nth (sx_nth inp 5) 2) in
   L (map (fun s => run_rule efixed guard N V classes opaque (dec_rule s)) (sx_list (sx_nth inp 4))
-     ++ run_genf gfixed (sx_nth inp 6)).
+     ++ run_genf gfixed (sx_nth inp 6)
+     ++ run_crit efixed guard classes (sx_list (sx_nth inp 4)) (sx_nth inp 7)).
